@@ -42,3 +42,8 @@ claim("C27", "abstract interpretation of format_value per Res_value type with a 
       "format_value (and ARSCParser.get_resource_dimen/color) are interpreted for each defined type over all 2^32 data values at once (paths split on radix, unit, package and sign bits); "
       "the normalised output pieces must be Android's: signed 24-bit mantissa x RADIX_MULTS[radix] (x100) + unit, signed 32-bit decimal, IEEE reinterpretation, 8 hex digits, boolean, '@'/'?' + android: prefix.",
       "Trusted: agstatic bit domain and format normaliser; AOSP constants transcribed in the rule; _data is an unsigned 32-bit value. Unit nibbles outside the AOSP tables are not constrained.")
+
+claim("C30", "abstract interpretation of locale pack/unpack on symbolic strings and words (bit provenance + base+x linear character codes)",
+      "set_language_and_region/get_language_and_region and their helpers are interpreted on symbolic locale strings of every shape (2/3-letter language x none/2-letter/2-digit/3-char region) "
+      "and on symbolic configuration words of every reader form: get(set(s)) == s character by character, set(get(w)) == w bit by bit, decoded text = AOSP unpackLanguageOrRegion layout, default locale round-trips.",
+      "Trusted: agstatic domains (Bits, Lin, StrV); character classes assumed for letters/digits; AOSP packed layout transcribed in the rule.")
